@@ -208,10 +208,17 @@ def judgeTypeExec (t : Tables) (ctx : Ctx) (ms : Ms) (script : List Op) (ty : Ty
     let obs (sc : List Op) (s : List Bytes) : Obs := ⟨s, sigFree s, runStack env sc s⟩
     -- the canonical satisfaction for a spender who holds every signature and preimage, under
     -- the locks this transaction meets: one run on which a satisfiable fragment SUCCEEDS
-    let allAv : SatTable.Avail := ⟨fun _ => true, fun _ _ => true, fun n => checkLockTime env n,
-      fun n => checkSequence env n, fun _ => true, fun _ => true⟩
-    let canonSat : List (List Bytes) :=
-      match SatTable.satWit allAv (sortKeys ke) (if base == .K then .check ms else ms) with
+    -- ... and the same for EVERY subset of the fragment's keys signing (all subsets up to 5 keys,
+    -- beyond that all singletons and all co-singletons): sortedmulti / multi / multi_a / thresh
+    -- with the first key not signing, each key subset of a k-of-n, ...
+    let ks := dedup (msKeys ms)
+    let subsets : List (List Key) :=
+      if ks.length ≤ 5 then ks.foldr (fun k acc => acc ++ acc.map (k :: ·)) [[]]
+      else [ks] ++ ks.map (fun k => [k]) ++ ks.map (fun k => ks.filter (· != k))
+    let canonSat : List (List Bytes) := dedup <| subsets.flatMap fun sub =>
+      let av : SatTable.Avail := ⟨fun k => sub.contains k, fun _ _ => true, fun n => checkLockTime env n,
+        fun n => checkSequence env n, fun _ => true, fun _ => true⟩
+      match SatTable.satWit av (sortKeys ke) (if base == .K then .check ms else ms) with
       | none => []
       | some items =>
         match items.mapM (realiseSat t) with
